@@ -107,9 +107,9 @@ example : (match UTMUPS.forward (F64.ofInt 10) (F64.ofInt 100) 31 false (0, 0, 0
 
 (models of C04 / C05 / C18, imported; the constants come from `Gen/`, re-read from the sources on every run) -/
 
-/-- `Geohash::Forward`: NaN latitude, or NaN longitude with a legal latitude ⇒ "invalid" -/
+/-- `Geohash::Forward`: NaN latitude, or NaN / infinite longitude (AngNormalize turns ±inf into NaN first; fix d0a70a5) with a legal latitude ⇒ "invalid" -/
 theorem nan_in_invalid_out_geohash (lat lon : F64) (len : Int)
-    (h : lat.isNaN = true ∨ (lon.isNaN = true ∧ F64.gt (F64.abs lat) MathF.qd = false)) :
+    (h : lat.isNaN = true ∨ (lon.isFinite = false ∧ F64.gt (F64.abs lat) MathF.qd = false)) :
     Grid.Geohash.forward lat lon len = .ok "invalid".toList := by
   have hs : Grid.Geohash.scale lat lon = .ok none := by
     unfold Grid.Geohash.scale
@@ -120,7 +120,7 @@ theorem nan_in_invalid_out_geohash (lat lon : F64) (len : Int)
   simp [Grid.Geohash.forward, hs, bind, Except.bind, pure, Except.pure]
 
 theorem nan_in_invalid_out_gars (lat lon : F64) (p : Int)
-    (h : lat.isNaN = true ∨ (lon.isNaN = true ∧ F64.gt (F64.abs lat) MathF.qd = false)) :
+    (h : lat.isNaN = true ∨ (lon.isFinite = false ∧ F64.gt (F64.abs lat) MathF.qd = false)) :
     Grid.GARS.forward lat lon p = .ok "INVALID".toList := by
   unfold Grid.GARS.forward Grid.GARS.forwardWith Grid.GARS.scale Grid.GARS.scaleWith
   rcases h with h | ⟨h, hg⟩
@@ -129,7 +129,7 @@ theorem nan_in_invalid_out_gars (lat lon : F64) (p : Int)
   · simp [hg, h, bind, Except.bind, pure, Except.pure]
 
 theorem nan_in_invalid_out_georef (lat lon : F64) (p : Int)
-    (h : lat.isNaN = true ∨ (lon.isNaN = true ∧ F64.gt (F64.abs lat) MathF.qd = false)) :
+    (h : lat.isNaN = true ∨ (lon.isFinite = false ∧ F64.gt (F64.abs lat) MathF.qd = false)) :
     Grid.Georef.forward lat lon p = .ok "INVALID".toList := by
   unfold Grid.Georef.forward Grid.Georef.forwardWith Grid.Georef.scale Grid.Georef.scaleWith
   rcases h with h | ⟨h, hg⟩
